@@ -20,11 +20,16 @@ def values():
     return {
         "rate": {"MHz1": 1 * u.MHz, "kHz250": 250 * u.kHz, "GHz2": 2 * u.GHz, "mHz1": 1 * u.mHz, "zero": 0 * u.Hz,
                  "neg": -1 * u.MHz, "sec": 1 * u.s, "float": 1e6, "array": [1, 2] * u.MHz, "dimless": 5 * u.one,
+                 "array1": np.array([5.0]) * u.MHz, "array11": np.array([[5.0]]) * u.MHz,
                  "none": None, "nan": float("nan") * u.Hz, "inf": float("inf") * u.Hz},
         "cf": {"GHz1": 1 * u.GHz, "zero": 0 * u.Hz, "neg": -1 * u.GHz, "kHz5": 5 * u.kHz, "sec": 1 * u.s,
-               "float": 1e9, "array": [1, 2] * u.GHz, "none": None, "nan": float("nan") * u.Hz},
+               "float": 1e9, "array": [1, 2] * u.GHz, "array1": np.array([1.0]) * u.GHz, "none": None,
+               "nan": float("nan") * u.Hz},
         "start": {"none": None, "time": Time("2021-03-04T05:06:07.123456789", format="isot", precision=9),
                   "time_mjd": Time(59000.5, format="mjd"), "isot_str": "2020-01-01T00:00:00",
+                  "time_tai": Time("2021-03-04T05:06:07.5", format="isot", scale="tai"),
+                  "time_subns": Time("2021-03-04T05:06:07", format="isot", precision=9) + (1 / 3) * u.ns,
+                  "time_array1": Time([59000.5], format="mjd"),
                   "float": 59867.2442234, "time_array": Time([59000.5, 59001.5], format="mjd"),
                   "garbage": "hello", "list": [1, 2]},
         "meta": {"none": None, "dict": {"a": 1, "b": {"c": [1, 2]}}, "empty": {}, "pairs": [("a", 1)], "int": 5,
